@@ -140,4 +140,35 @@ silent("c01-gate-lt4", ["C01"], [(RDR, "(byte2[0] & ~0x03) == 0", "byte2[0] < 4"
 silent("c01-read-bytes-renamed", ["C01", "C02", "C05"], [(RDR, "_read_bytes", "_take")], "private helper renamed") 
 silent("c01-size-style", ["C01"], [(RDR, "size = (hdr[1] << 8) | hdr3[0]", 'size = int.from_bytes(hdr[1:2] + hdr3, "big")')], "equivalent size computation")
 
+# ----------------------------------------------------------------------------- C02
+fire("c02-eof-on-zero-request", ["C02"], RDR, "if len(data) == 0 and size > 0:  # EOF (a zero-length request is not EOF)", "if len(data) == 0:  # EOF", "original defect F-C02 re-introduced")
+fire("c02-ubx-plus1", ["C02"], RDR, "byten = self._read_bytes(leni + 2)", "byten = self._read_bytes(leni + 1)", "UBX skip one byte short (survives the test-suite)")
+fire("c02-ubx-big-endian", ["C02"], RDR, 'leni = int.from_bytes(lenb, "little", signed=False)', 'leni = int.from_bytes(lenb, "big", signed=False)')
+fire("c02-ubx-len-offset", ["C02"], RDR, "lenb = byten[2:4]", "lenb = byten[1:3]")
+fire("c02-ubx-hdr-3", ["C02"], RDR, "byten = self._read_bytes(4)", "byten = self._read_bytes(3)")
+fire("c02-sync-set-minus", ["C02"], RDR, 'if byte1 not in (b"\\xb5", b"\\x24", b"\\xd3"):', 'if byte1 not in (b"\\xb5", b"\\xd3"):', "NMEA sentences become errors")
+fire("c02-sync-set-plus", ["C02"], RDR, 'if byte1 not in (b"\\xb5", b"\\x24", b"\\xd3"):', 'if byte1 not in (b"\\xb5", b"\\x24", b"\\xd3", b"\\x00"):', "zero bytes are no longer inert noise")
+fire("c02-noise-reads-two", ["C02"], RDR, '                if byte1 not in (b"\\xb5", b"\\x24", b"\\xd3"):\n                    continue', '                if byte1 not in (b"\\xb5", b"\\x24", b"\\xd3"):\n                    self._read_bytes(1)\n                    continue', "noise swallows the byte after it")
+fire("c02-ubx-no-continue", ["C02"], RDR, "                    (raw_data, parsed_data) = self._parse_ubx(bytehdr)\n                    continue", "                    (raw_data, parsed_data) = self._parse_ubx(bytehdr)\n                    break")
+fire("c02-handler-returns", ["C02"], RDR, "                if self._quitonerror:\n                    self._do_error(err)\n                continue", "                if self._quitonerror:\n                    self._do_error(err)\n                return (None, None)", "an error ends iteration")
+fire("c02-next-or", ["C02"], RDR, "if raw_data is None and parsed_data is None:", "if raw_data is None or parsed_data is None:", "iteration stops at the first unparsed frame")
+fire("c02-nmea-readbytes", ["C02"], RDR, "byten = self._read_line()  # NMEA protocol is CRLF-terminated", "byten = self._read_bytes(80)  # NMEA protocol is CRLF-terminated")
+fire("c02-line-no-eof", ["C02"], RDR, "        if len(data) == 0:\n            raise EOFError()  # EOF\n", "")
+fire("c02-size-guard-off-by-one", ["C02"], RDR, "if len(data) == 0 and size > 0:", "if len(data) == 0 and size >= 0:")
+silent("c02-new-talker", ["C02"], [(CORE, '    b"$W",\n]', '    b"$W",\n    b"$Q",\n]')], "a new NMEA talker prefix is unconstrained")
+silent("c02-skip-zero-read", ["C02", "C01"], [(RDR, "        payload = self._read_bytes(size)\n", '        payload = self._read_bytes(size) if size else b""\n'), (RDR, "if len(data) == 0 and size > 0:  # EOF (a zero-length request is not EOF)", "if len(data) == 0:  # EOF")], "alternative repair: the caller skips the zero-length read")
+
+# ----------------------------------------------------------------------------- C05
+fire("c05-parse-before-trailer", ["C05"], RDR, "        crc = self._read_bytes(3)\n        raw_data = hdr + hdr3 + payload + crc\n        if self._parsed:\n            parsed_data = self.parse(\n                raw_data,", "        raw_data = hdr + hdr3 + payload\n        if self._parsed:\n            parsed_data = self.parse(\n                raw_data + self._read_bytes(0),", "validation before the frame is consumed")
+fire("c05-both-sinks", ["C05"], RDR, "            if self._errorhandler is None:\n                self._logger.error(err)\n            else:\n                self._errorhandler(err)", "            self._logger.error(err)\n            if self._errorhandler is not None:\n                self._errorhandler(err)", "log mode reports twice when a handler is set (survives the test-suite)")
+fire("c05-quitonerror-negated", ["C05"], RDR, "                if self._quitonerror:\n                    self._do_error(err)", "                if not self._quitonerror:\n                    self._do_error(err)")
+fire("c05-raise-mode-logs", ["C05"], RDR, "        if self._quitonerror == ERR_RAISE:\n            raise err from err\n        if self._quitonerror == ERR_LOG:", "        if self._quitonerror >= ERR_LOG:", "raise mode never raises")
+fire("c05-handler-called-in-ignore", ["C05"], RDR, "                if self._quitonerror:\n                    self._do_error(err)\n                continue", "                if self._errorhandler is not None:\n                    self._errorhandler(err)\n                if self._quitonerror:\n                    self._do_error(err)\n                continue")
+fire("c05-parseerror-not-caught", ["C05"], RDR, "                RTCMMessageError,\n                RTCMParseError,\n                RTCMStreamError,", "                RTCMMessageError,\n                RTCMStreamError,", "CRC failure escapes the loop in every mode")
+fire("c05-raise-new-exception", ["C05"], RDR, "            raise err from err", "            raise RTCMStreamError(str(err)) from err", "raise mode raises a different class")
+fire("c05-log-only-first", ["C05"], RDR, "                self._errorhandler(err)\n", "                self._errorhandler(err)\n                self._errorhandler = None\n", "handler dropped after the first error")
+fire("c05-state-after-error", ["C05"], RDR, "                if self._quitonerror:\n                    self._do_error(err)\n                continue", "                self._parsed = False\n                if self._quitonerror:\n                    self._do_error(err)\n                continue", "an error changes the reader's behaviour for later frames")
+silent("c05-dispatch-ge", ["C05"], [(RDR, "        if self._quitonerror == ERR_LOG:", "        if self._quitonerror >= ERR_LOG:")], "equivalent on the three modes (after the == ERR_RAISE test)")
+silent("c05-dispatch-always-called", ["C05"], [(RDR, "                if self._quitonerror:\n                    self._do_error(err)", "                self._do_error(err)")], "equivalent: the dispatcher does nothing in ignore mode")
+
 VARIANTS = V
